@@ -694,10 +694,9 @@ func (o *trafficOracle) OnEnd(s *Sim) {
 			fam += "/finalised-as-success"
 		}
 	}
-	if o.brDeletedWithPartition && !o.sc.user.ExitNoBR && !o.sc.user.ExitUnclaimed {
+	if o.brDeletedWithPartition {
 		fam += "/batchrelease-deleted-with-partition"
-	}
-	if o.sc.user.ExitNoBR {
+	} else if o.sc.user.ExitNoBR {
 		fam += "/no-batchrelease-at-exit"
 	} else if o.sc.user.ExitUnclaimed {
 		fam += "/batchrelease-unclaimed-at-exit"
